@@ -264,7 +264,9 @@ class Report:
             return 0
         rdir = os.path.join(WORK, "replays")
         os.makedirs(rdir, exist_ok=True)
-        for i, (what, replay, no_input) in enumerate(self.violations[:5]):
+        # violations with a concrete failing input first (only five are written out)
+        ordered = sorted(self.violations, key=lambda v: bool(v[2]))
+        for i, (what, replay, no_input) in enumerate(ordered[:5]):
             path = os.path.join(rdir, f"{self.pid}-{self.seed}-{i}.json")
             with open(path, "w") as f:
                 json.dump({"property": self.pid, "what": what, "replay": replay}, f, indent=1, ensure_ascii=False)
